@@ -26,6 +26,36 @@ pub struct BrokerCfg {
     pub ordered: bool,
 }
 
+/// A broker that restarts from the metadata file written by `update_meta_file` (the production
+/// persistence: JsonFileStorage). Returns None when the file cannot be loaded.
+pub async fn new_service_from_file(cfg: &BrokerCfg, meta_file: &str) -> Result<Arc<MemBrokerService>, String> {
+    use undermoon::broker::MetaPersistence;
+    let replica_addresses = Arc::new(arc_swap::ArcSwap::new(Arc::new(vec![])));
+    let config = MemBrokerConfig {
+        address: "127.0.0.1:0".to_string(),
+        failure_ttl: cfg.failure_ttl,
+        failure_quorum: cfg.failure_quorum,
+        migration_limit: cfg.migration_limit,
+        recover_from_meta_file: true,
+        meta_filename: meta_file.to_string(),
+        auto_update_meta_file: false,
+        update_meta_file_interval: None,
+        replica_addresses: replica_addresses.clone(),
+        sync_meta_interval: None,
+        enable_ordered_proxy: cfg.ordered,
+        storage: StorageConfig::Memory,
+        debug: false,
+    };
+    let persistence = Arc::new(JsonFileStorage::new(meta_file.to_string()));
+    let last = persistence.load().await.map_err(|e| format!("load: {}", e))?;
+    if last.is_none() {
+        return Err("metadata file missing".to_string());
+    }
+    let replicator = Arc::new(JsonMetaReplicator::new(replica_addresses, reqwest::Client::new()));
+    let svc = MemBrokerService::new(config, ClusterConfig::default(), persistence, replicator, last).map_err(|e| format!("restore: {}", e))?;
+    Ok(Arc::new(svc))
+}
+
 pub fn new_service(cfg: &BrokerCfg, meta_file: &str) -> Arc<MemBrokerService> {
     let replica_addresses = Arc::new(arc_swap::ArcSwap::new(Arc::new(vec![])));
     let config = MemBrokerConfig {
